@@ -65,6 +65,17 @@ void operator delete[](void* p, std::size_t) noexcept { operator delete(p); }
 namespace {
 using vs::VPay;
 inline long apply_f(long fid, long v) { return fid < 100 ? v * 16 + fid : fid; }
+// the pending flag without an event, whatever its type (instrumented atomic, or a plain bool after a change)
+template<class F>
+auto peek_flag(const F& f, int) -> decltype(f.vs_peek(), true)
+{
+    return f.vs_peek();
+}
+template<class F>
+bool peek_flag(const F& f, long)
+{
+    return static_cast<bool>(f);
+}
 
 struct IInst {
     virtual ~IInst() = default;
@@ -201,8 +212,10 @@ struct Inst: IInst {
 
     void final(std::vector<std::vector<long>>& out) override
     {
-        out.push_back({dg.m_obj.peek(), dg.m_pendingWrites.vs_peek() ? 1L : 0L, (long)dg.m_pendingList.m_obj.size(),
+#ifndef VS_NO_PEEK
+        out.push_back({dg.m_obj.peek(), peek_flag(dg.m_pendingWrites, 0) ? 1L : 0L, (long)dg.m_pendingList.m_obj.size(),
                        mutex_traits<M>::owner_free(dg.m_mutex), mutex_traits<M>::sharers(dg.m_mutex)});
+#endif
     }
 };
 }  // namespace
